@@ -471,6 +471,15 @@ func (vc *VC) evalLoc(e *SpecEnv, x ast.Expr, whole bool) (res []locTarget) {
 					v := vc.loadDesc(e.st, d)
 					return sliceTargets(v, slt)
 				}
+				if mt, ok := d.T.Underlying().(*types.Map); ok && whole {
+					v := vc.loadDesc(e.st, d)
+					names, sorts := vc.mapHeaps(e.st, mt)
+					var out []locTarget
+					for i := range names {
+						out = append(out, locTarget{name: names[i], sort: sorts[i], key: v.L[0]})
+					}
+					return out
+				}
 				return vc.descTargets(d)
 			}
 			cur = se.X
@@ -894,11 +903,19 @@ type pendingTarget struct {
 // preciseCallTargets evaluates the assigns clauses of a callee for a call whose
 // arguments are all defined before the loop.
 func (vc *VC) preciseCallTargets(fr *Frame, c *Contract, cc *ssa.CallCommon, st *State) (out []pendingTarget, ok bool) {
+	const unav = "?UNAV"
+	poison := func(t types.Type) Val {
+		v := Val{T: t}
+		for range layoutOf(t).Leaves {
+			v.L = append(v.L, unav)
+		}
+		return v
+	}
 	var args []Val
 	if cc.IsInvoke() {
 		v, have := fr.vals[cc.Value]
 		if !have {
-			return nil, false
+			v = poison(cc.Value.Type())
 		}
 		args = append(args, v)
 	}
@@ -909,7 +926,7 @@ func (vc *VC) preciseCallTargets(fr *Frame, c *Contract, cc *ssa.CallCommon, st 
 		default:
 			v, have := fr.vals[a]
 			if !have {
-				return nil, false
+				v = poison(a.Type())
 			}
 			args = append(args, v)
 		}
@@ -931,6 +948,9 @@ func (vc *VC) preciseCallTargets(fr *Frame, c *Contract, cc *ssa.CallCommon, st 
 			reads := vc.readLog
 			vc.readLog = nil
 			for _, t := range ts {
+				if strings.Contains(t.key, unav) {
+					t.whole, t.key = true, ""
+				}
 				out = append(out, pendingTarget{t: t, reads: reads})
 			}
 		}
